@@ -99,6 +99,53 @@ ClearOutput(st) == [st EXCEPT !.have = TRUE, !.out = << >>, !.idx = 0]
 SwapBuffers(st) ==
   [info |-> IF st.have THEN st.out \o SubSeq(st.info, st.idx + 1, Len(st.info)) ELSE st.out, out |-> << >>, idx |-> 0, have |-> FALSE]
 
+(* Buffer.mergeOutClusters *)
+MergeOutClusters(st, start0, end0) ==
+  IF end0 - start0 < 2 THEN st
+  ELSE LET o == st.out
+           n == Len(o)
+           cluster == SetMin({o[i + 1].cl : i \in start0..(end0 - 1)})
+           start == SetMin({b \in 0..start0 : \A j \in b..(start0 - 1) : o[j + 1].cl = o[start0 + 1].cl})
+           end == SetMax({e \in end0..n : \A j \in end0..(e - 1) : o[j + 1].cl = o[end0].cl})
+           endC == o[end].cl
+           \* if the end of the out-buffer was reached, continue in the input
+           k == IF end = n
+                THEN SetMax({e \in st.idx..Len(st.info) : \A j \in st.idx..(e - 1) : st.info[j + 1].cl = endC})
+                ELSE st.idx
+       IN [st EXCEPT !.out = [i \in DOMAIN o |-> IF (i - 1) \in start..(end - 1) THEN SetCl(o[i], cluster, FALSE) ELSE o[i]],
+                     !.info = [i \in DOMAIN st.info |-> IF (i - 1) >= st.idx /\ (i - 1) < k THEN SetCl(st.info[i], cluster, FALSE) ELSE st.info[i]]]
+(* Buffer.moveTo: forward copies input items to the output; backward takes output items back to the    *)
+(* input side (the consumed prefix of info is scratch space: when it is too short the input is shifted) *)
+MoveTo(st, i) ==
+  IF ~st.have THEN [st EXCEPT !.idx = i]
+  ELSE LET outL == Len(st.out) IN
+       IF outL < i THEN LET count == i - outL IN
+            [st EXCEPT !.out = @ \o SubSeq(st.info, st.idx + 1, st.idx + count), !.idx = @ + count]
+       ELSE IF outL > i THEN
+            LET count == outL - i
+                \* shiftForward(count - idx): the items from idx on move right, the gap keeps what was there
+                shifted == IF st.idx < count
+                           THEN LET d == count - st.idx IN
+                                [info |-> [k \in 1..(Len(st.info) + d) |-> IF k <= st.idx + d THEN (IF k <= Len(st.info) THEN st.info[k] ELSE [g |-> 0, cl |-> 0, fl |-> FALSE]) ELSE st.info[k - d]],
+                                 idx |-> count]
+                           ELSE [info |-> st.info, idx |-> st.idx]
+                nidx == shifted.idx - count
+            IN [st EXCEPT !.info = [k \in DOMAIN shifted.info |-> IF k > nidx /\ k <= nidx + count THEN st.out[outL - count + (k - nidx)] ELSE shifted.info[k]],
+                          !.idx = nidx, !.out = SubSeq(st.out, 1, outL - count)]
+       ELSE st
+(* Buffer.Reverse (output mode off) and Buffer.reverseClusters *)
+Rev(s) == [i \in DOMAIN s |-> s[Len(s) + 1 - i]]
+Reverse(st) == [st EXCEPT !.info = Rev(@)]
+(* reverseGroups by equal cluster, no merging: each group is reversed in place, then the whole: the   *)
+(* groups end up in reverse order, each keeping its internal order                                      *)
+RECURSIVE GroupsOf(_)
+GroupsOf(s) == IF s = << >> THEN << >>
+               ELSE LET k == SetMax({e \in 1..Len(s) : \A j \in 1..e : s[j].cl = s[1].cl})
+                    IN << SubSeq(s, 1, k) >> \o GroupsOf(SubSeq(s, k + 1, Len(s)))
+RECURSIVE FlattenG(_)
+FlattenG(g) == IF g = << >> THEN << >> ELSE Head(g) \o FlattenG(Tail(g))
+ReverseClusters(st) == [st EXCEPT !.info = FlattenG(Rev(GroupsOf(@)))]
+
 (* one primitive operation, by name (the vocabulary of the replay) *)
 Apply(st, op, x, y) ==
   CASE op = "clearOutput" -> ClearOutput(st)
@@ -111,6 +158,10 @@ Apply(st, op, x, y) ==
     [] op = "flag" -> UnsafeToBreak(st, x, y)
     [] op = "flagOut" -> UnsafeToBreakFromOut(st, x, y)
     [] op = "swap" -> SwapBuffers(st)
+    [] op = "mergeOut" -> MergeOutClusters(st, x, y)
+    [] op = "moveTo" -> MoveTo(st, x)
+    [] op = "reverse" -> Reverse(st)
+    [] op = "reverseClusters" -> ReverseClusters(st)
 
 (* ---------------------------------------------------------------- the laws *)
 (* the text of the buffer in processing order *)
@@ -119,6 +170,7 @@ Increasing(s) == \A i \in 1..(Len(s) - 1) : s[i].cl <= s[i + 1].cl
 Decreasing(s) == \A i \in 1..(Len(s) - 1) : s[i].cl >= s[i + 1].cl
 (* C01: a pass keeps monotone clusters monotone *)
 Monotone(st, dir) == IF dir = "inc" THEN Increasing(Concat(st)) ELSE Decreasing(Concat(st))
+MonotoneAny(st) == Increasing(Concat(st)) \/ Decreasing(Concat(st))
 (* the cluster span of the items a flagging call covers: a dependency between those characters *)
 DepOf(st, op, x, y) ==
   LET items == IF op = "flag" THEN {st.info[i + 1] : i \in x..(Min2(y, Len(st.info)) - 1)}
